@@ -202,7 +202,7 @@ type recording struct {
 	patch   []byte
 	oldDir  string
 	newDir  string
-	refTree map[string]wh.Snap
+	refTree snap
 	refErr  error
 	events  []event
 	ckpts   []ckRec
@@ -400,7 +400,7 @@ func (e *env) record(cfg Config) *recording {
 			os.RemoveAll(base)
 			return rec
 		}
-		rec.refTree, _ = wh.Snapshot(d.out)
+		rec.refTree = takeSnap(nil, dirs{out: d.out})
 		os.RemoveAll(base)
 	}
 
@@ -463,8 +463,7 @@ func (e *env) record(cfg Config) *recording {
 		rec.runErr = fmt.Errorf("commit: %w", err)
 		return rec
 	}
-	got, _ := wh.Snapshot(d.out)
-	rec.runDiff = wh.DiffSnaps(got, rec.refTree, false)
+	rec.runDiff = compareTree(d.out, rec.refTree)
 	rec.sig = fmt.Sprintf("%d/%d/%d", len(rec.patch), rec.calls, len(rec.ckpts))
 	return rec
 }
@@ -604,7 +603,13 @@ func differing(atK, atT snap, physKey string) []string {
 }
 
 // tornStates lists the alternative on-disk states of one differing file.
-func tornStates(key string, atK, atT snap, ck *ckRec, quick bool) []TornFile {
+// level 0: truncated to {ckpt offset, +1, midpoint, written extent-1, len-1},
+// zero-filled after the ckpt offset, as at k / missing; level 1: truncated to
+// {ckpt offset, written extent-1},
+// zero-filled, as at k / missing; level 2: truncated to the ckpt offset, as at k
+// / missing. For a file the checkpointed writer was not appending to, the
+// "ckpt offset" is 0 (nothing of it is vouched for by the checkpoint).
+func tornStates(key string, atK, atT snap, ck *ckRec, level int) []TornFile {
 	bt := atT[key]
 	_, hadK := atK[key]
 	role, off := "other", int64(0)
@@ -614,9 +619,18 @@ func tornStates(key string, atK, atT snap, ck *ckRec, quick bool) []TornFile {
 	lenT := int64(len(bt.data))
 	var out []TornFile
 	seen := map[int64]bool{}
-	cands := []int64{off, off + 1, (off + lenT) / 2, lenT - 1}
-	if quick {
-		cands = []int64{off, lenT - 1}
+	// a fresh bowl preallocates every file at its final size, so the length that
+	// matters for "partly written" is the extent without the trailing zeros
+	eff := lenT
+	for eff > off && bt.data[eff-1] == 0 {
+		eff--
+	}
+	cands := []int64{off, off + 1, (off + eff) / 2, eff - 1, lenT - 1}
+	switch level {
+	case 1:
+		cands = []int64{off, eff - 1}
+	case 2:
+		cands = []int64{off}
 	}
 	for _, n := range cands {
 		if n < off || n >= lenT || seen[n] {
@@ -625,7 +639,7 @@ func tornStates(key string, atK, atT snap, ck *ckRec, quick bool) []TornFile {
 		seen[n] = true
 		out = append(out, TornFile{File: key, State: "trunc", N: n, Role: role})
 	}
-	if lenT > off {
+	if lenT > off && level < 2 {
 		out = append(out, TornFile{File: key, State: "zero", N: off, Role: role})
 	}
 	if hadK {
@@ -634,6 +648,38 @@ func tornStates(key string, atK, atT snap, ck *ckRec, quick bool) []TornFile {
 		out = append(out, TornFile{File: key, State: "missing", Role: role})
 	}
 	return out
+}
+
+// compareTree compares the directory with the reference tree byte for byte
+// (own Lstat walk; kinds, contents, symlink destinations, path sets).
+func compareTree(dir string, ref snap) []string {
+	got := takeSnap(nil, dirs{out: dir})
+	var d []string
+	for p, w := range ref {
+		g, ok := got[p]
+		rel := strings.TrimPrefix(p, "out/")
+		switch {
+		case !ok:
+			d = append(d, fmt.Sprintf("missing %s (%c)", rel, w.kind))
+		case g.kind != w.kind:
+			d = append(d, fmt.Sprintf("kind of %s: got %c want %c", rel, g.kind, w.kind))
+		case g.kind == 'f' && !bytes.Equal(g.data, w.data):
+			first := 0
+			for first < len(g.data) && first < len(w.data) && g.data[first] == w.data[first] {
+				first++
+			}
+			d = append(d, fmt.Sprintf("content of %s: got %d bytes want %d bytes, first difference at offset %d", rel, len(g.data), len(w.data), first))
+		case g.kind == 'l' && g.dest != w.dest:
+			d = append(d, fmt.Sprintf("dest of %s: got %q want %q", rel, g.dest, w.dest))
+		}
+	}
+	for p, g := range got {
+		if _, ok := ref[p]; !ok {
+			d = append(d, fmt.Sprintf("extra %s (%c)", strings.TrimPrefix(p, "out/"), g.kind))
+		}
+	}
+	sort.Strings(d)
+	return d
 }
 
 // ---------------------------------------------------------------------------
